@@ -20,8 +20,35 @@ from concurrent.futures import ThreadPoolExecutor
 
 VERIF = Path(__file__).resolve().parent.parent
 REPO = Path(os.environ.get("VERIF_REPO", "/repo"))
-LEAN = VERIF / "lean"
 CACHE = Path(os.environ.get("VERIF_CACHE", "/var/tmp/uvverif"))
+
+
+def _lean_dir():
+    """The Lean project the run works in.  A run against a mutated tree (VERIF_REPO != /repo) regenerates
+    UvModel/Generated from that tree and rebuilds: it does so in a private copy of /verif/lean (sources and
+    build products, ≈ 1 s to copy), so it can neither disturb nor be disturbed by runs against the real tree."""
+    if os.environ.get("VERIF_LEAN"):
+        return Path(os.environ["VERIF_LEAN"])
+    if str(REPO) == "/repo":
+        return VERIF / "lean"
+    CACHE.mkdir(parents=True, exist_ok=True)
+    for old in CACHE.glob("lean-mutant-*"):
+        try:
+            if time.time() - old.stat().st_mtime > 3 * 3600:
+                shutil.rmtree(old, ignore_errors=True)
+        except OSError:
+            pass
+    d = Path(tempfile.mkdtemp(prefix="lean-mutant-", dir=str(CACHE)))
+    src = VERIF / "lean"
+    subprocess.run(["flock", str(src / ".lakelock"), "rsync", "-a", "--exclude", ".lakelock",
+                    str(src) + "/", str(d) + "/"], check=False)
+    os.environ["VERIF_LEAN"] = str(d)           # tools/lk and tools/gen_lean.py follow it
+    pid = os.getpid()
+    atexit.register(lambda: os.getpid() == pid and shutil.rmtree(d, ignore_errors=True))
+    return d
+
+
+LEAN = _lean_dir()
 NCPU = os.cpu_count() or 4
 
 ALLOWED_AXIOMS = {"propext", "Classical.choice", "Quot.sound"}
@@ -157,13 +184,10 @@ class Ctx:
         self.t0 = time.time()
         self.rng = SplitMix(seed * 1000003 + int(pid[1:]))
         self._sweep_stale()
-        # A run against a mutated tree (VERIF_REPO != /repo) regenerates lean/UvModel/Generated from
-        # that tree; it must not be observed by concurrent runs against the real tree.  Mutant runs
-        # hold this lock exclusively for their whole life, normal runs share it during their Lean phase.
+        # A run against a mutated tree (VERIF_REPO != /repo) works in a private copy of the Lean project
+        # (see _lean_dir), so mutant runs and runs against the real tree never see each other's files.
         self._mutant = str(REPO) != "/repo"
         CACHE.mkdir(parents=True, exist_ok=True)
-        self._mlock = open(CACHE / "mutant.lock", "w")
-        fcntl.flock(self._mlock, fcntl.LOCK_EX if self._mutant else fcntl.LOCK_SH)
         self.tmp = Path(tempfile.mkdtemp(prefix=f"uvv-{pid}-", dir=str(self._tmproot())))
         atexit.register(lambda: shutil.rmtree(self.tmp, ignore_errors=True))
         self.obligations = []       # (name, ok, detail)
@@ -241,11 +265,6 @@ class Ctx:
                     ok, log = False, dlog
         if driver:
             self._snapshot_driver()
-        if not self._mutant:
-            try:
-                fcntl.flock(self._mlock, fcntl.LOCK_UN)
-            except OSError:
-                pass
         if not ok:
             # find which modules failed
             failed = re.findall(r"^- (\S+)", log, re.M) or ["?"]
@@ -446,13 +465,13 @@ class Ctx:
         ev = {"property_id": self.pid, "tier": self.tier, "seed": self.seed, "level": "proof",
               "coverage": cov, "assumptions": self.assumptions, "wall_s": round(wall, 2),
               "violations": len(self.violations) + (1 if self.broken and not self.violations else 0)}
-        (VERIF / "evidence").mkdir(exist_ok=True)
-        (VERIF / "evidence" / f"{self.pid}.json").write_text(json.dumps(ev, indent=1))
+        # evidence describes /repo; a run against a mutated tree (tools/seedtest.py) keeps its record out of it
+        evdir = (CACHE / "mutant-evidence") if self._mutant else (VERIF / "evidence")
+        evdir.mkdir(parents=True, exist_ok=True)
+        (evdir / f"{self.pid}.json").write_text(json.dumps(ev, indent=1))
         self.log(f"done rc={rc} obligations={ndis}/{nobl} evaluations={cov['evaluations']} "
                  f"distinct_nontrivial={cov['distinct_nontrivial']} wall={wall:.1f}s")
         shutil.rmtree(self.tmp, ignore_errors=True)
-        if self._mutant:
-            sh(["git", "-C", str(VERIF), "checkout", "--", "lean/UvModel/Generated"])
         sys.exit(rc)
 
 
